@@ -406,14 +406,14 @@ K_NAMES = {1: "cif_create_block", 2: "cif_get_block", 3: "cif_container_create_f
 def c04(tier):
     import sql_colmap
     qs = []
-    fns = (1, 2, 3, 4, 5, 6, 8, 9, 10, 11, 12, 13, 20) if tier == "quick" else (1, 2, 3, 4, 5, 6, 7, 8, 9, 10, 11, 12, 13, 20)
-    for f, bs in [(f, b) for f in fns for b in (range(6) if f == 20 else (None,))]:
+    fns = (1, 2, 3, 4, 5, 6, 7, 8, 9, 10, 11, 12, 13, 20)
+    for f, bs in [(f, b) for f in fns for b in (range(6) if f == 20 else ((0, 1) if f == 7 else (None,)))]:
         d = {"FN": f, "SENV_COLSTORE": None}
         if bs is not None:
-            d["BADSEL"] = bs
+            d["BADSEL" if f == 20 else "ROUTE"] = bs
         qs.append(Q("C04_keys_%s%s" % (K_NAMES[f].replace(" ", "_"), "" if bs is None else "_%d" % bs), "h04_keys.c", defs=d, extra=SQL_EXTRA, libtus=SQL_TUS,
                     gen=lambda wd: sql_colmap.gen(wd, REPO), unwind=8,
-                    unwindset=VAL_REC + ["memcmp.*:8", "teardown.*:31", "strcmp.*:900", "strncmp.*:20", "memset.*:700", "sqlite3_prepare_v2.*:40", "step_hook.*:14",
+                    unwindset=VAL_REC + ["memcmp.*:8", "teardown.*:31", "strcmp.*:900", "strncmp.*:70", "memset.*:700", "sqlite3_prepare_v2.*:40", "step_hook.*:14",
                                          "sqlite3_clear_bindings.*:18", "sqlite3_finalize.*:18", "sqlite3_step.*:18", "memcpy.*:64", "strlen.*:8", "ueq.*:6"],
                     mode="func", replay_libs=["-licuio", "-licui18n", "-licuuc", "-licudata"], native_extra=["stubs/icu_norm_cheap.c", "stubs/sqlite_env.c"],
                     object_bits=10, group="h04_keys", timeout=600 if f == 7 else None,
@@ -662,7 +662,40 @@ META["C01"] = {"files": ["parser.c"], "functions": ["next_token", "scan_ws", "sc
                "assumptions": ["one token per query; composition over a document is by the token / production contracts (argued)", "CIF_LINE_LENGTH shrunk by hook"],
                "outside": ["byte -> UChar decoding", "tokens longer than the bound", "characters the reference tokenizer leaves unspecified get generic assertions only"]}
 
-REG = {"C01": c01, "C03": c03, "C12": c12, "C15": c15, "C04": c04, "C11": c11, "C16": c16, "C05": c05, "C06": c06, "C17": c17, "C20": c20, "C10": c10, "C18": c18, "C09": c09, "C08": c08, "C14": c14, "C19": c19, "C07": c07}
+
+# ------------------------------------------------------------------------------------------ C02 / C13
+def write_queries(tier, version, prefix):
+    qs = []
+    WL = 20
+    ks = (1, 2, 3) if tier == "quick" else (1, 2, 3, 4, 5)
+    for k in ks:
+        qs.append(Q("%s_write_char_K%d" % (prefix, k), "h02_write.c", defs={"KLEN": k, "WVERSION": version, "CIF_API_VERIF_LINE_LENGTH": WL, "SINK_MAX": 96},
+                    extra=["stubs/icu_str.c", "stubs/ustdio_sink.c"], libtus=["utils.c", "value.c", "map.c", "packet.c"], unwind=max(3 * k + 12, 30),
+                    unwindset=VAL_REC + ["u_fprintf.*:100", "ref_kw.*:9", "cif_validate_cif11_characters.*:110", "strlen.*:12"], mode="func", replay=False,
+                    uthash="model", mem_gb=8, timeout=600 if tier == "quick" else 2400,
+                    bounds={"value text": "%d code units over the CIF %s value characters (no CR), contents symbolic" % (k, "2.0" if version == 2 else "1.1"),
+                            "quoted flag": "symbolic", "start column": "0..%d symbolic" % WL, "CIF_LINE_LENGTH": WL},
+                    note="write_item/write_char/... -> in-memory sink -> reference tokenizer + text-field decoder"))
+    return qs
+
+
+def c02(tier):
+    return write_queries(tier, 2, "C02")
+
+
+def c13(tier):
+    return write_queries(tier, 1, "C13")
+
+
+META["C02"] = {"files": ["ciffile.c", "utils.c"], "functions": ["write_item", "write_char", "write_unquoted", "write_quoted", "write_triple_quoted", "write_text", "fold_line",
+                                                              "write_literal", "write_uliteral", "write_newline", "cif_analyze_string", "cif_validate_cif11_characters"],
+               "stubs": ["stubs/ustdio_sink.c (u_fprintf / u_fputc in-memory model for the format strings of ciffile.c)", "read-back = reference tokenizer (C01) + reference text-field decoder"],
+               "assumptions": ["CIF_LINE_LENGTH = 20 via hook", "strings of concrete length <= 3 (thorough 5) units, contents symbolic"],
+               "outside": ["UTF-8 encoding of the output (ICU)", "the walk that feeds the writer (C14) and the storage below it", "lists / tables / numbers / container and loop headers unless listed",
+                           "strings long enough to need folding at the real limit"]}
+META["C13"] = META["C02"]
+
+REG = {"C01": c01, "C02": c02, "C13": c13, "C03": c03, "C12": c12, "C15": c15, "C04": c04, "C11": c11, "C16": c16, "C05": c05, "C06": c06, "C17": c17, "C20": c20, "C10": c10, "C18": c18, "C09": c09, "C08": c08, "C14": c14, "C19": c19, "C07": c07}
 
 
 def for_property(pid, tier):
